@@ -15,6 +15,7 @@ ENGINES = {
     "C23": "e3_gen",
     "C22": "e4_exc",
     "C44": "e4_exc",
+    "C35": "e5_refs",
 }
 
 
